@@ -32,6 +32,7 @@ type Case struct {
 	Renames  []int      `json:"test_renames"` // indices of leaf targets renamed to *_test
 	Queries  []Query    `json:"queries"`
 	EditFile int        `json:"edit_file"`
+	Link     int        `json:"symlinked_file,omitempty"` // 0: none; else 1 + index of the source file that is a symlink
 }
 
 const cap = 60 * time.Second
@@ -147,6 +148,24 @@ func run(c Case) (pbt.Result, error) {
 	}
 	if err := sb.Sync(w); err != nil {
 		return pbt.Result{Discard: true}, nil
+	}
+	if c.Link > 0 {
+		// one source file becomes a symbolic link to a hidden file next to it (hidden files are not matched by globs):
+		// the input is still the link's path, for owners as for the build
+		var all []string
+		for f := range w.Files {
+			all = append(all, f)
+		}
+		sort.Strings(all)
+		if len(all) > 0 {
+			f := all[(c.Link-1)%len(all)]
+			full := filepath.Join(sb.WS, f)
+			real := filepath.Join(filepath.Dir(full), ".real-"+filepath.Base(full)+".target")
+			if err := os.Rename(full, real); err == nil {
+				_ = os.Symlink(filepath.Base(real), full)
+				res.Classes = append(res.Classes, "symlinked-input")
+			}
+		}
 	}
 	query := func(cwd string, args ...string) ([]string, error) {
 		_ = os.MkdirAll(filepath.Join(sb.WS, cwd), 0o755)
@@ -401,6 +420,9 @@ func abs(i int) int {
 func gen(t *rapid.T) Case {
 	w := histeng.GenWS(t, histeng.Profile{MaxTargets: 6, DirOutputs: true, BinOutputs: true})
 	c := Case{WS: w, EditFile: rapid.IntRange(0, 20).Draw(t, "editfile")}
+	if rapid.IntRange(0, 2).Draw(t, "symlink") == 0 {
+		c.Link = 1 + rapid.IntRange(0, 20).Draw(t, "linkfile")
+	}
 	for i := rapid.IntRange(0, 2).Draw(t, "nrenames"); i > 0; i-- {
 		c.Renames = append(c.Renames, rapid.IntRange(0, 5).Draw(t, "rename"))
 	}
